@@ -26,6 +26,7 @@ from pybrops.popgen.gmat.DenseGenotypeMatrix import DenseGenotypeMatrix
 from pybrops.popgen.gmat.DensePhasedGenotypeMatrix import DensePhasedGenotypeMatrix
 from pybrops.core.mat.DenseSquareTaxaMatrix import DenseSquareTaxaMatrix
 from pybrops.popgen.cmat.DenseMolecularCoancestryMatrix import DenseMolecularCoancestryMatrix
+from pybrops.core.mat.DenseSquareTaxaTraitMatrix import DenseSquareTaxaTraitMatrix
 from pybrops.breed.prot.gt.DenseUnphasedGenotyping import DenseUnphasedGenotyping
 from pybrops.breed.prot.gt.DenseMaskedUnphasedGenotyping import DenseMaskedUnphasedGenotyping
 from pybrops.breed.prot.gt.DenseMaskedPhasedGenotyping import DenseMaskedPhasedGenotyping
@@ -130,6 +131,7 @@ FAMILIES = {f.name: f for f in [
     Fam("DenseTraitMatrix", DenseTraitMatrix, ["trait", "other"], "float64", fixed={"other": 2}),
     Fam("DenseSquareTaxaMatrix", DenseSquareTaxaMatrix, ["taxa"], "float64", square=True),
     Fam("DenseMolecularCoancestryMatrix", DenseMolecularCoancestryMatrix, ["taxa"], "float64", square=True),
+    Fam("DenseSquareTaxaTraitMatrix", DenseSquareTaxaTraitMatrix, ["taxa", "trait"], "float64", square=True),
 ]}
 BASE_FAMILIES = {"DenseTaxaMatrix", "DenseVariantMatrix", "DenseTraitMatrix"}
 
@@ -144,6 +146,10 @@ def build_mat(fam, elems):
         blk = numpy.array([el[2] for el in elems["taxa"]], dtype="int64")
         m = ids[:, None] * 1000.0 + ids[None, :]
         m[blk[:, None] != blk[None, :]] = numpy.nan
+        if "trait" in fam.kinds:
+            # (taxa, taxa, trait): each trait layer adds 1e6 * trait id (exact in binary64)
+            tids = numpy.array([el[0] for el in elems["trait"]], dtype="float64")
+            m = m[:, :, None] + 1.0e6 * tids[None, None, :]
         return m
     shape = []
     parts = []
@@ -301,7 +307,30 @@ class Harness:
         return (eid, frozenset(none), self.block, frozenset())
 
     def axis_of(self, k):
+        if self.fam.square:
+            return 0 if k == "taxa" else 2          # (taxa, taxa[, trait])
         return self.fam.kinds.index(k)
+
+    def ndim(self):
+        return len(self.fam.kinds) + (1 if self.fam.square else 0)
+
+    def other_axis_labels_known_lost(self, k):
+        """F-C03-g: non-mutating operations of the square taxa-trait family return a matrix without the OTHER axis' labels"""
+        fam = self.fam
+        if fam.name != "DenseSquareTaxaTraitMatrix":
+            return False
+        others = [lb for kk in fam.labelled if kk != k for lb in LABELS[kk] if self.present[lb]]
+        self.ctx.label("square_trait_nonmutating_op_with_other_axis_labels", bool(others))
+        return bool(others) and self.ctx.known("F-C03-g", True)
+
+    def other_axis_fields(self, k):
+        out = []
+        for kk in self.fam.labelled:
+            if kk != k:
+                out += LABELS[kk]
+                if kk in GROUP:
+                    out += GROUP[kk][1]
+        return out
 
     def adopt_result(self, res):
         """a non-mutating operation produced `res` from the live matrix: the old matrix stays alive as an operand that
@@ -324,7 +353,7 @@ class Harness:
                            lambda: "%s: a matrix that was the operand of an earlier non-mutating operation changed in fields %s" % (where, bad))
 
     # -------------------------------------------------------------------------------------------------------------
-    def verify(self, x, elems, where):
+    def verify(self, x, elems, where, only_kind=None):
         ctx, fam = self.ctx, self.fam
         exp = build_mat(fam, elems)
         if not ctx.check(x.mat.shape == exp.shape, "data.shape", lambda: "%s: shape %s expected %s" % (where, x.mat.shape, exp.shape)):
@@ -333,6 +362,8 @@ class Harness:
         ctx.check(gens.same_array(x.mat, exp), "data.cells_not_of_their_entities",
                   lambda: "%s: data\n%s\nexpected (from the entities' ids)\n%s" % (where, x.mat, exp))
         for k in fam.labelled:
+            if only_kind is not None and k != only_kind:
+                continue
             for lb in LABELS[k]:
                 got = getattr(x, lb)
                 if not self.present[lb]:
@@ -414,10 +445,11 @@ class Harness:
         if k == "trait" and op in ("group", "ungroup"):
             op = "sort"
         ax = self.axis_of(k)
-        axarg = ax if stp["generic"] == "pos" else ax - len(fam.kinds)
-        if fam.square:
+        axarg = ax if stp["generic"] == "pos" else ax - self.ndim()
+        if fam.square and k == "taxa":
             ax = 0
-            axarg = [0, 1, -1, -2][(stp["raw"][4] + (0 if stp["generic"] == "pos" else 2)) % 4]
+            nd = self.ndim()
+            axarg = [0, 1, 0 - nd, 1 - nd][(stp["raw"][4] + (0 if stp["generic"] == "pos" else 2)) % 4]
             if op in ("insert", "incorp", "concat"):
                 ctx.label("square_insert_like")
                 if ctx.known("F-C03-c", True):
@@ -460,6 +492,9 @@ class Harness:
             ctx.check(not state_diff(before, full_state(fam, x)), "operand_modified", lambda: "%s: receiver fields %s" % (where, state_diff(before, full_state(fam, x))))
             new_elems = dict(self.elems)
             new_elems[k] = [self.elems[k][int(i)] for i in kept]
+            if self.other_axis_labels_known_lost(k):
+                self.verify(res, new_elems, where, only_kind=k)     # data and this axis' labels; the result is not adopted
+                return
             self.verify(res, new_elems, where)
             ctx.check(res.mat is not x.mat, "result_aliases_receiver_data", where)
             self.adopt_result(res)
@@ -550,16 +585,20 @@ class Harness:
                 # mutating == non-mutating counterpart
                 w, werr = specific(x, COUNTERPART[op])
                 if werr is None:
-                    ctx.check(not state_diff(full_state(fam, res), full_state(fam, w)), "mutating_differs_from_nonmutating",
+                    ign = self.other_axis_fields(k) if self.other_axis_labels_known_lost(k) else ()
+                    ctx.check(not state_diff(full_state(fam, res), full_state(fam, w), ignore=ign), "mutating_differs_from_nonmutating",
                               lambda: "%s vs %s: fields %s" % (where, COUNTERPART[op], state_diff(full_state(fam, res), full_state(fam, w))))
             # operands untouched
             ctx.check(not state_diff(before, full_state(fam, x)), "operand_modified", lambda: "%s: receiver fields %s" % (where, state_diff(before, full_state(fam, x))))
             if isinstance(values, numpy.ndarray):
-                ctx.check(bool((values == vsnap["mat"]).all()), "operand_modified", where + ": values array")
+                ctx.check(gens.same_array(values, vsnap["mat"]), "operand_modified", where + ": values array")
             else:
                 ctx.check(not state_diff(vsnap, full_state(fam, values)), "operand_modified", lambda: "%s: values fields %s" % (where, state_diff(vsnap, full_state(fam, values))))
             new_elems = dict(self.elems)
             new_elems[k] = [self.elems[k][i] if i >= 0 else new[-1 - i] for i in [int(q) for q in idm]]
+            if not mutating and self.other_axis_labels_known_lost(k):
+                self.verify(res, new_elems, where, only_kind=k)
+                return
             self.verify(res, new_elems, where)
             if mutating:
                 self.mutate_live(lambda t: specific(t, op), res, where)
@@ -588,7 +627,8 @@ class Harness:
             ctx.check(gerr is None and not state_diff(full_state(fam, y), full_state(fam, z)), "generic_differs_from_specific", lambda: "%s axis=%d: %r" % (where, axarg, gerr))
             w, werr = self.call(getattr(x, "delete_" + k), obj)
             if werr is None:
-                ctx.check(not state_diff(full_state(fam, y), full_state(fam, w)), "mutating_differs_from_nonmutating",
+                ign = self.other_axis_fields(k) if self.other_axis_labels_known_lost(k) else ()
+                ctx.check(not state_diff(full_state(fam, y), full_state(fam, w), ignore=ign), "mutating_differs_from_nonmutating",
                           lambda: "%s vs delete: fields %s" % (where, state_diff(full_state(fam, y), full_state(fam, w))))
             new_elems = dict(self.elems)
             new_elems[k] = [self.elems[k][int(i)] for i in kept]
@@ -668,9 +708,11 @@ class Harness:
             ctx.check(gerr is None and not state_diff(full_state(fam, y), full_state(fam, z)), "generic_differs_from_specific", lambda: "%s axis=%d: %r" % (where, axarg, gerr))
             # read the realised permutation back from the data (ids are injective in the first cell along the axis)
             exp0 = build_mat(fam, self.elems)
-            if fam.square:
-                src = numpy.diagonal(exp0).reshape(n, 1)
-                dst = numpy.diagonal(y.mat).reshape(-1, 1) if y.mat.ndim == 2 and y.mat.shape[0] == y.mat.shape[1] else None
+            if fam.square and k == "taxa":
+                e2 = exp0 if exp0.ndim == 2 else exp0[:, :, 0]
+                y2 = y.mat if y.mat.ndim == 2 else (y.mat[:, :, 0] if y.mat.ndim == 3 and y.mat.shape[2] > 0 else None)
+                src = numpy.diagonal(e2).reshape(n, 1)
+                dst = numpy.diagonal(y2).reshape(-1, 1) if y2 is not None and y2.shape[0] == y2.shape[1] else None
             else:
                 src = numpy.moveaxis(exp0, ax, 0).reshape(n, -1)
                 dst = numpy.moveaxis(y.mat, ax, 0).reshape(y.mat.shape[ax], -1) if y.mat.ndim == exp0.ndim else None
@@ -679,7 +721,7 @@ class Harness:
                 return
             perm, used = [], set()
             for i in range(n):
-                hit = [j for j in range(n) if j not in used and (src[j] == dst[i]).all()]
+                hit = [j for j in range(n) if j not in used and numpy.array_equal(src[j], dst[i], equal_nan=(src.dtype.kind == "f"))]
                 # among identical rows (same entity selected twice) prefer the one whose labels also match
                 if not hit:
                     ctx.fail("sort.not_a_permutation_of_the_entities", lambda: "%s: row %d of the result is no row of the input" % (where, i))
@@ -820,7 +862,7 @@ def check_genotyping(case, ctx):
 
 _CONCRETE = ["DenseGenotypeMatrix", "DensePhasedGenotypeMatrix", "DenseTaxaVariantMatrix", "DensePhasedTaxaVariantMatrix", "DenseTaxaTraitMatrix"]
 _BASE = ["DenseTaxaMatrix", "DenseVariantMatrix", "DenseTraitMatrix"]
-_SQUARE = ["DenseSquareTaxaMatrix", "DenseMolecularCoancestryMatrix"]
+_SQUARE = ["DenseSquareTaxaMatrix", "DenseMolecularCoancestryMatrix", "DenseSquareTaxaTraitMatrix"]
 
 SUBCHECKS = [
     SubCheck("histories", check_program, program(_CONCRETE), quick=250, thorough=2500, shards_quick=8, shrink_s=30,
